@@ -3,6 +3,14 @@
 import json
 props=[json.loads(l) for l in open('/verif/properties.jsonl')]
 claimed={
+ "C11": dict(level="model_checking",
+   text="Bounded symbolic execution of the base-location normaliser through the public resolver: a canonical location with byte-symbolic path segments and a re-spelling of it (operator and position are explored exhaustively, segment bytes are solver variables) must make the loader see identical, canonical URLs; idempotence of normalisation is asserted on the URL the loader received. A genuine defect found this way (file: base with query) was repaired in /repo (fix: commit e9dc163).",
+   note="Trusted: SSA executor, z3, M-regexp, M-os (working directory stub). Bounds: <=2/3 segments of <=2 bytes over a 11-value alphabet, one re-spelling operator.",
+   design="4 C11", technique="bounded symbolic execution of go/ssa (byte-vector strings) + SMT (z3), counterexample replay"),
+ "C12": dict(level="model_checking",
+   text="Differential bounded symbolic execution: the URL the real ResolveRefWithBase hands to the loader for a byte-symbolic $ref is compared with net/url's RFC 3986 ResolveReference executed on the same symbolic bytes; one solver obligation per path class, all byte values for short refs, the property's segment alphabet for longer ones. Known deviation (%2F) is listed in known_findings.json as a region; anything outside it is a VIOLATION after native replay.",
+   note="Trusted: SSA executor, z3, net/url as the RFC 3986 reference implementation, M-regexp. Bounds: all bytes up to 2/3 bytes, alphabet up to 4/5 bytes, four bases.",
+   design="4 C12", technique="bounded symbolic execution of go/ssa (byte-vector strings) + SMT (z3), differential oracle, counterexample replay"),
  "C13": dict(level="model_checking",
    text="Bounded symbolic execution of NewRef -> String -> NewRef, the classification flags, and the JSON and gob codecs of Ref on reference strings whose every byte is an unconstrained solver variable (all 256 values), for every length up to the bound; net/url, strings, jsonreference and jsonpointer run from their SSA. Each path's obligations are solver verdicts over all byte values of that path's class; counterexamples are replayed on the real build.",
    note="Trusted: SSA executor (reachability witnesses replayed natively each run), z3, M-regexp (two regexes as reference Go), M-json/M-gob value-level models. Bounds: length <= 3 quick / 4 thorough; valid UTF-8; no userinfo/opaque.",
